@@ -7,6 +7,7 @@ mod linwf;
 mod progs;
 mod emitters;
 mod heap;
+mod labels;
 mod machine;
 mod moves;
 mod prints;
@@ -286,6 +287,37 @@ fn check_programs(tier: &str, seed: u64, backend: Option<&str>) -> Vec<Summary> 
     out
 }
 
+fn check_labels(seed: u64) -> Vec<Summary> {
+    let corpus = labels::corpus();
+    let mut s = Summary::default();
+    s.check = "labels".into();
+    let mut accepted = 0;
+    let mut executed = 0;
+    for (p, args) in &corpus {
+        let r = std::panic::catch_unwind(|| labels::check_file(p, args, seed));
+        match r {
+            Ok(fr) => {
+                if fr.accepted {
+                    accepted += 1;
+                }
+                executed += fr.executed;
+                for (ob, f) in fr.failures {
+                    s.violations.push(f.json(&ob, "pipeline"));
+                }
+            }
+            Err(_) => s.violations.push(Failure { what: "the pipeline panicked".into(), input: p.display().to_string(), instructions: vec![], detail: String::new() }.json("native::pipeline::panic", "pipeline")),
+        }
+    }
+    s.cases = corpus.len() as u64;
+    s.nontrivial = accepted;
+    s.bound = format!("{} Fun programs (the repository's examples and /verif/native/corpus: identifiers resembling generated names, nested generic types, types with 12 constructors / 6 destructors, literals of every magnitude with spilled variables), {accepted} accepted by the real front end, compiled by the real pipeline for three backends; label well-formedness of every emitted file; {executed} executions compared with the AxCut reference machine", corpus.len());
+    s.samples = corpus.iter().take(3).map(|(p, a)| format!("{} {:?}", p.display(), a)).collect();
+    if accepted < 8 {
+        s.violations.push(Failure { what: format!("HARNESS: only {accepted} corpus programs were accepted by the front end"), input: String::new(), instructions: vec![], detail: String::new() }.json("native::pipeline::corpus", "pipeline"));
+    }
+    vec![s]
+}
+
 fn main() {
     let args: Vec<String> = std::env::args().collect();
     let check = args.get(1).cloned().unwrap_or_default();
@@ -322,6 +354,7 @@ fn main() {
         "moves" => check_moves(&tier, seed),
         "linearize" => check_linearize(&tier, seed),
         "programs" => check_programs(&tier, seed, backend.as_deref()),
+        "labels" => check_labels(seed),
         "heap" => check_heap(&tier, seed, backend.as_deref()),
         "prints" => check_prints(&tier, seed),
         "emitters" => check_emitters(seed, only.as_deref(), backend.as_deref()),
